@@ -85,7 +85,14 @@ def make_trace(tid, rng, nops=25, **opt):
     esz = 16 if ext else 8
     l2_real = cs // esz
     nc = rng.randrange(3, 40)
-    if opt.get("many"):  # more L2 tables than the 128-entry L2 cache holds
+    if opt.get("many") == "mid":  # several L2 tables
+        ext = rng.random() < 0.5
+        cb = 14 if ext else 9
+        cs = 1 << cb
+        esz = 16 if ext else 8
+        l2_real = cs // esz
+        nc = rng.randrange(3 * l2_real, 6 * l2_real) if not ext else rng.randrange(l2_real, 2 * l2_real)
+    elif opt.get("many"):  # more L2 tables than the 128-entry L2 cache holds
         ext, cb = False, 9
         cs, esz, l2_real = 512, 8, 64
         nc = rng.randrange(8400, 9000)
@@ -185,7 +192,7 @@ def run(ctx):
     diskprop.replay_states(ctx, "qcow2", sts, STD_T if thorough else STD_Q, build, attrs_of=_attrs, cap=48 if thorough else 28)
     sts = diskprop.dump_states(ctx, "Qcow2", "Qcow2ext_img.cfg")
     diskprop.replay_states(ctx, "qcow2", sts, EXT_T if thorough else EXT_Q, build, attrs_of=_attrs, cap=48 if thorough else 28)
-    diskprop.traces(ctx, "qcow2", lambda tid, r: make_trace(tid, r, 40 if thorough else 25), 320 if thorough else 64,
+    diskprop.traces(ctx, "qcow2", lambda tid, r: make_trace(tid, r, 40 if thorough else 25, many=("mid" if tid % 8 == 0 else None)), 320 if thorough else 64,
                     "TraceDisk", "TraceDisk.cfg", lambda t: {"format": "qcow2", "ext": t["img"]["ext"], "datafile": t["img"]["datafile"]})
 
 
